@@ -18,3 +18,135 @@ Proof.
   apply andb_true_iff in Hl. destruct Hl as [Hl _].
   apply andb_true_iff in Hl. destruct Hl as [Hs Hv]. split; assumption.
 Qed.
+
+(* ====================================================================================================================
+   Second part: the status-assembly code itself (internal/mode/static/status/prepare_requests.go: prepareRouteStatus,
+   prepareGatewayRequest, PrepareGatewayRequests for ignored Gateways; conditions.DeduplicateConditions).
+   Model: C07/Prep.v; vocabulary of the statements (of_type, last_of_type, reports, route_expected …): C07/PrepCheck.v;
+   the model is tied to the real functions on every run by TestVerifC07Prep (code 1 of C07/PrepCheck.v).
+   All statements hold for ALL lists of conditions, all attachment states, both reload outcomes, all listener lists. *)
+From Coq Require Import ZArith.
+From NGF Require Import C07.Prep C07.PrepCheck C07.PrepProofs.
+Local Open Scope string_scope.
+Local Open Scope list_scope.
+
+(* DeduplicateConditions: of every type exactly the LAST condition of the input is kept (and nothing else of that type);
+   the result has pairwise distinct types; a type occurs in the result iff it occurs in the input; the survivors keep
+   the order of the input. *)
+Theorem C07_dedup_last_wins_distinct_complete : forall l,
+  (forall t, of_type t (dedup l) = opt_list (last_of_type t l)) /\
+  NoDup (types_of (dedup l)) /\
+  (forall t, In t (types_of l) <-> In t (types_of (dedup l))) /\
+  subseq (dedup l) l.
+Proof. exact dedup_summary. Qed.
+
+(* what "the last condition of type t" means: nothing of type t comes after it *)
+Theorem C07_last_of_type_is_the_last : forall t l c,
+  last_of_type t l = Some c <-> exists a b, l = a ++ c :: b /\ pc_type c = t /\ has_type t b = false.
+Proof. exact last_of_type_spec. Qed.
+
+(* (a) Routes: after a failed reload EVERY parent entry — whatever the Route's own conditions and whatever the attachment
+   state — carries exactly one Accepted condition, Accepted=False/GatewayNotProgrammed; none says Accepted=True. *)
+Theorem C07_route_not_accepted_after_failed_reload : forall conds parents e,
+  In e (prepare_route_status conds parents true) ->
+  of_type "Accepted" e = [PC "Accepted" "False" "GatewayNotProgrammed"] /\ reports e "Accepted" "True" = false.
+Proof. exact route_reload_failed_all. Qed.
+
+(* (b) Routes: the entry of a parentRef whose attachment failed carries the failed condition as its only condition of
+   that type — not the default, not a Route-level condition (unless the reload failed and the type is Accepted: (a)). *)
+Theorem C07_failed_attachment_is_reported : forall conds parents reload_failed i fc,
+  nth_error parents i = Some (Some (Att false fc)) ->
+  reload_failed = false \/ pc_type fc <> "Accepted" ->
+  exists e, nth_error (prepare_route_status conds parents reload_failed) i = Some e /\ of_type (pc_type fc) e = [fc].
+Proof. exact route_failed_attachment_all. Qed.
+
+(* (g) Routes: entry i belongs to parentRef i, and for EVERY condition type the entry carries exactly what the precedence
+   failed reload > failed attachment > last Route-level condition > default (Accepted=True, ResolvedRefs=True) selects. *)
+Theorem C07_route_entry_precedence : forall conds parents reload_failed i t,
+  nth_error (prepare_route_status conds parents reload_failed) i =
+    option_map (route_parent_conds conds reload_failed) (nth_error parents i) /\
+  forall a, of_type t (route_parent_conds conds reload_failed a) = opt_list (route_expected conds reload_failed a t).
+Proof. exact route_entry_precedence. Qed.
+
+(* (c) Routes: one entry per parentRef, and no condition type twice within an entry. *)
+Theorem C07_route_entries_have_distinct_types : forall conds parents reload_failed,
+  List.length (prepare_route_status conds parents reload_failed) = List.length parents /\
+  forall e, In e (prepare_route_status conds parents reload_failed) -> NoDup (types_of e).
+Proof. exact route_status_shape. Qed.
+
+(* (d) Gateway conditions reflect listener validity. For a valid Gateway with n valid listeners:
+   n = 0 (also: no listeners at all): Accepted=False/ListenersNotValid, never Accepted=True, Programmed=False/Invalid;
+   0 < n < all: Accepted=True/ListenersNotValid;  n = all > 0: Accepted=True/Accepted;
+   n > 0 and the reload succeeded: Programmed=True;  only the types Accepted and Programmed, each once (c). *)
+Theorem C07_gateway_accepted_reflects_listener_validity : forall g reload_failed,
+  pg_valid g = true ->
+  let n := List.length (filter pl_valid (pg_listeners g)) in
+  let e := go_conds (prepare_gateway g reload_failed) in
+  (n = 0 -> of_type "Accepted" e = [PC "Accepted" "False" "ListenersNotValid"] /\
+            reports e "Accepted" "True" = false /\
+            of_type "Programmed" e = [PC "Programmed" "False" "Invalid"]) /\
+  (0 < n -> n < List.length (pg_listeners g) -> of_type "Accepted" e = [PC "Accepted" "True" "ListenersNotValid"]) /\
+  (0 < n -> n = List.length (pg_listeners g) -> of_type "Accepted" e = [PC "Accepted" "True" "Accepted"]) /\
+  (0 < n -> reload_failed = false -> of_type "Programmed" e = [PC "Programmed" "True" "Programmed"]) /\
+  (forall c, In c e -> pc_type c = "Accepted" \/ pc_type c = "Programmed") /\
+  NoDup (types_of e).
+Proof. exact gateway_accepted_reflects_listeners. Qed.
+
+(* (a) Gateways: after a failed reload a valid Gateway and EVERY listener (valid or not, whatever its own conditions)
+   carry exactly one Programmed condition, Programmed=False/Invalid; none says Programmed=True. *)
+Theorem C07_nothing_programmed_after_failed_reload : forall g,
+  pg_valid g = true ->
+  of_type "Programmed" (go_conds (prepare_gateway g true)) = [PC "Programmed" "False" "Invalid"] /\
+  reports (go_conds (prepare_gateway g true)) "Programmed" "True" = false /\
+  List.length (go_listeners (prepare_gateway g true)) = List.length (pg_listeners g) /\
+  forall o, In o (go_listeners (prepare_gateway g true)) ->
+            of_type "Programmed" (lo_conds o) = [PC "Programmed" "False" "Invalid"] /\
+            reports (lo_conds o) "Programmed" "True" = false.
+Proof. exact gateway_reload_failed. Qed.
+
+(* (e) one listener status per listener, in order, under its name, attachedRoutes = L7 routes + L4 routes; (c) for listeners *)
+Theorem C07_attached_routes_is_the_sum : forall g reload_failed,
+  pg_valid g = true ->
+  map (fun o => (lo_name o, lo_attached o)) (go_listeners (prepare_gateway g reload_failed)) =
+  map (fun l => (pl_name l, Z.of_nat (pl_routes l + pl_l4routes l))) (pg_listeners g) /\
+  forall o, In o (go_listeners (prepare_gateway g reload_failed)) -> NoDup (types_of (lo_conds o)).
+Proof. exact gateway_listener_statuses. Qed.
+
+(* (g) listener conditions reflect listener validity: a valid listener gets the defaults (Accepted, Programmed, ResolvedRefs
+   True, Conflicted False) when the reload succeeded; an invalid listener gets, per type, the last of its OWN conditions and
+   no default (apart from Programmed after a failed reload, (a)). *)
+Theorem C07_listener_conditions_reflect_validity : forall g reload_failed i l,
+  pg_valid g = true -> nth_error (pg_listeners g) i = Some l ->
+  exists o, nth_error (go_listeners (prepare_gateway g reload_failed)) i = Some o /\
+            (pl_valid l = true -> reload_failed = false -> lo_conds o = default_listener_conds) /\
+            (forall t, pl_valid l = false -> reload_failed = false \/ t <> "Programmed" ->
+                       of_type t (lo_conds o) = opt_list (last_of_type t (pl_conds l))).
+Proof. exact gateway_listener_conditions. Qed.
+
+(* (h) an invalid Gateway: no listener statuses; per type the last of its own conditions; distinct types *)
+Theorem C07_invalid_gateway_reports_its_own_conditions : forall g reload_failed,
+  pg_valid g = false ->
+  go_listeners (prepare_gateway g reload_failed) = [] /\
+  (forall t, of_type t (go_conds (prepare_gateway g reload_failed)) = opt_list (last_of_type t (pg_conds g))) /\
+  NoDup (types_of (go_conds (prepare_gateway g reload_failed))).
+Proof. exact gateway_invalid_own. Qed.
+
+(* (f) every ignored Gateway: Accepted=False and Programmed=False with reason GatewayConflict, nothing else, no listeners *)
+Theorem C07_ignored_gateway_conflict : forall g n_ignored reload_failed,
+  List.length (snd (prepare_gateways g n_ignored reload_failed)) = n_ignored /\
+  forall o, In o (snd (prepare_gateways g n_ignored reload_failed)) ->
+    go_conds o = [PC "Accepted" "False" "GatewayConflict"; PC "Programmed" "False" "GatewayConflict"] /\
+    go_listeners o = [].
+Proof. exact ignored_gateways. Qed.
+
+(* ORACLE SOUNDNESS for the model: for all inputs, the case whose "observed" part is the model's own output gets no code:
+   the oracle (a)–(h) of C07/PrepCheck.v (stated without the model) accepts everything the model produces. Hence a code 2 on
+   the real functions' output is a disagreement with the model or a violated clause, never an artefact of the oracle. *)
+Theorem C07_prep_oracle_sound :
+  (forall conds parents reload_failed,
+     check_case (RouteCase conds parents reload_failed (prepare_route_status conds parents reload_failed)) = []) /\
+  (forall g n_ignored reload_failed,
+     check_case (GatewaysCase g n_ignored reload_failed (fst (prepare_gateways g n_ignored reload_failed))
+                              (snd (prepare_gateways g n_ignored reload_failed))) = []) /\
+  check_case (CtorCase ctor_table) = [].
+Proof. exact check_case_model. Qed.
